@@ -50,6 +50,7 @@ pub struct Seen {
     pub tls_payload_bytes: u64,
     pub later_live_untouched: u64,
     pub preset_with_literal_host: u64,
+    pub ipv6_lists: u64,
 }
 
 // ------------------------------------------------------------------ resolution + TCP fallback
@@ -59,6 +60,8 @@ enum Entry {
     Live,
     Refused,
     Unreachable,
+    /// a live listener on the IPv6 loopback address (at most one per list)
+    Live6,
 }
 
 #[derive(Clone, Copy, Debug, PartialEq, Eq)]
@@ -98,6 +101,9 @@ struct Net {
     unreachable: Option<SocketAddr>,
     /// a live listener that is never part of an address list
     decoy: StdListener,
+    live6: Option<StdListener>,
+    #[allow(dead_code)]
+    refused_holders: Vec<socket2::Socket>,
 }
 
 impl Net {
@@ -108,12 +114,19 @@ impl Net {
             l.set_nonblocking(true).unwrap();
             lives.push(l);
         }
+        // descending ports: the order of any list with two live entries differs from the addresses' natural order
+        lives.sort_by_key(|l| std::cmp::Reverse(l.local_addr().unwrap().port()));
+        // closed ports: sockets that are bound (so that nobody else, in this process or in a parallel shard, can be given
+        // the port) but never listen; a connect to them is refused
         let mut refused = Vec::new();
+        let mut refused_holders = Vec::new();
         for _ in 0..4 {
-            let l = StdListener::bind("127.0.0.1:0").unwrap();
-            refused.push(l.local_addr().unwrap());
-            drop(l);
+            let sk = socket2::Socket::new(socket2::Domain::IPV4, socket2::Type::STREAM, None).unwrap();
+            sk.bind(&"127.0.0.1:0".parse::<SocketAddr>().unwrap().into()).unwrap();
+            refused.push(sk.local_addr().unwrap().as_socket().unwrap());
+            refused_holders.push(sk);
         }
+        refused.sort_by_key(|a: &SocketAddr| std::cmp::Reverse(a.port()));
         // a second, distinguishable kind of dead address (only used if it fails immediately with another error kind)
         let cand: SocketAddr = "255.255.255.255:9".parse().unwrap();
         let unreachable = match std::net::TcpStream::connect_timeout(&cand, Duration::from_millis(200)) {
@@ -122,7 +135,20 @@ impl Net {
         };
         let decoy = StdListener::bind("127.0.0.1:0").unwrap();
         decoy.set_nonblocking(true).unwrap();
-        Net { lives, refused, unreachable, decoy }
+        let live6 = StdListener::bind("[::1]:0").ok().map(|l| {
+            l.set_nonblocking(true).unwrap();
+            l
+        });
+        Net { lives, refused, unreachable, decoy, live6, refused_holders }
+    }
+    fn drain6(&self) -> usize {
+        let mut n = 0;
+        if let Some(l) = &self.live6 {
+            while l.accept().is_ok() {
+                n += 1;
+            }
+        }
+        n
     }
     fn drain_decoy(&self) -> usize {
         let mut n = 0;
@@ -172,10 +198,12 @@ async fn tcp_case(net: &Net, list: &[Entry], how: How, local: bool, seen: &mut S
                 net.refused[ri - 1]
             }
             Entry::Unreachable => net.unreachable.unwrap(),
+            Entry::Live6 => net.live6.as_ref().unwrap().local_addr().unwrap(),
         })
         .collect();
     let _ = net.drain();
     let _ = net.drain_decoy();
+    let _ = net.drain6();
     let calls = Rc::new(RefCell::new(Vec::new()));
     let resolver = LogResolver {
         answer: if how == How::CustomErr { Err("scripted resolver failure".into()) } else { Ok(addrs.clone()) },
@@ -206,6 +234,7 @@ async fn tcp_case(net: &Net, list: &[Entry], how: How, local: bool, seen: &mut S
     };
     tokio::time::sleep(Duration::from_millis(2)).await;
     let accepted = net.drain();
+    let accepted6 = net.drain6();
     let decoy_hits = net.drain_decoy();
     let calls = calls.borrow().clone();
     let how_given = how;
@@ -273,7 +302,10 @@ async fn tcp_case(net: &Net, list: &[Entry], how: How, local: bool, seen: &mut S
             other => fail("C19:wrong-error-for-empty-answer", format!("{what}: got {:?}", other.as_ref().map(|_| "stream").map_err(kind_of))),
         };
     }
-    let first_live = list.iter().position(|e| *e == Entry::Live);
+    let first_live = list.iter().position(|e| *e == Entry::Live || *e == Entry::Live6);
+    if list.contains(&Entry::Live6) {
+        seen.ipv6_lists += 1;
+    }
     match (first_live, res) {
         (Some(k), Ok(conn)) => {
             seen.connects_ok += 1;
@@ -292,17 +324,25 @@ async fn tcp_case(net: &Net, list: &[Entry], how: How, local: bool, seen: &mut S
                 }
             }
             // accept counters: exactly one attempt on that listener, none on later live ones
-            let live_index = list[..=k].iter().filter(|e| **e == Entry::Live).count() - 1;
+            let chosen_is_v6 = list[k] == Entry::Live6;
+            let live_index = if chosen_is_v6 { usize::MAX } else { list[..=k].iter().filter(|e| **e == Entry::Live).count() - 1 };
+            let want6 = if chosen_is_v6 { 1 } else { 0 };
+            if accepted6 != want6 {
+                return fail(
+                    if want6 == 0 { "C19:later-address-dialled" } else { "C19:attempt-count-wrong" },
+                    format!("{what}: the IPv6 loopback listener accepted {accepted6} connection(s), expected {want6}"),
+                );
+            }
             for (i, n) in accepted.iter().enumerate() {
                 let want = if i == live_index { 1 } else { 0 };
                 if *n != want {
                     return fail(
-                        if i > live_index { "C19:later-address-dialled" } else { "C19:attempt-count-wrong" },
+                        if live_index != usize::MAX && i > live_index { "C19:later-address-dialled" } else { "C19:attempt-count-wrong" },
                         format!("{what}: live listener #{i} accepted {n} connection(s), expected {want} (connections accepted per live listener: {accepted:?})"),
                     );
                 }
             }
-            if list[k + 1..].contains(&Entry::Live) {
+            if list[k + 1..].contains(&Entry::Live) || list[k + 1..].contains(&Entry::Live6) {
                 seen.later_live_untouched += 1;
             }
             drop(io);
@@ -311,7 +351,7 @@ async fn tcp_case(net: &Net, list: &[Entry], how: How, local: bool, seen: &mut S
         (Some(k), Err(e)) => fail("C19:failed-although-live-address", format!("{what}: error {} although address #{k} is live", kind_of(&e))),
         (None, Err(ConnectError::Io(e))) => {
             seen.all_dead += 1;
-            if accepted.iter().any(|n| *n > 0) {
+            if accepted.iter().any(|n| *n > 0) || accepted6 > 0 {
                 return fail("C19:attempt-count-wrong", format!("{what}: live listeners not in the list accepted {accepted:?}"));
             }
             // the error must be the last attempt's
@@ -409,6 +449,8 @@ enum ServerCert {
     Other,
     SelfSigned,
     Untrusted,
+    /// trusted, valid for good.test and for the IP address 127.0.0.1
+    IpGood,
 }
 
 #[derive(Clone, Copy, Debug, PartialEq, Eq)]
@@ -439,6 +481,7 @@ fn identity<'a>(pki: &'a Pki, c: ServerCert) -> &'a Identity {
         ServerCert::Other => &pki.other,
         ServerCert::SelfSigned => &pki.self_signed,
         ServerCert::Untrusted => &pki.untrusted,
+        ServerCert::IpGood => &pki.ip_good,
     }
 }
 
@@ -468,6 +511,7 @@ async fn tls_case(conn: Conn, cert: ServerCert, name: &str, valid_syntax: bool, 
     let covers = match cert {
         ServerCert::Good => name.eq_ignore_ascii_case("good.test") || name.eq_ignore_ascii_case("good.test."),
         ServerCert::Other => name.eq_ignore_ascii_case("other.test"),
+        ServerCert::IpGood => name.eq_ignore_ascii_case("good.test") || name.eq_ignore_ascii_case("good.test.") || name == "127.0.0.1",
         // right name, but self-signed / issued by a CA the client does not trust
         ServerCert::SelfSigned | ServerCert::Untrusted => false,
     };
@@ -586,7 +630,11 @@ pub fn run(args: &Args, rep: &mut Report) {
             if net.unreachable.is_some() {
                 alphabet.push(Entry::Unreachable);
             }
-            for len in 0..=4usize {
+            if net.live6.is_some() {
+                alphabet.push(Entry::Live6);
+            }
+            let max_len = if thorough { 5usize } else { 4 };
+            for len in 0..=max_len {
                 let total = alphabet.len().pow(len as u32);
                 for code in 0..total {
                     let mut x = code;
@@ -597,8 +645,12 @@ pub fn run(args: &Args, rep: &mut Report) {
                             e
                         })
                         .collect();
+                    // one IPv6 listener, four IPv4 ones
+                    if list.iter().filter(|e| **e == Entry::Live6).count() > 1 || list.iter().filter(|e| **e == Entry::Live).count() > 4 || list.iter().filter(|e| **e == Entry::Refused).count() > 4 {
+                        continue;
+                    }
                     for how in [How::PreSet, How::PreSetLiteralHost, How::Custom, How::CustomErr, How::IpLiteral] {
-                        if how == How::IpLiteral && !(list.len() == 1 && list[0] != Entry::Unreachable) {
+                        if how == How::IpLiteral && !(list.len() == 1 && (list[0] == Entry::Live || list[0] == Entry::Refused)) {
                             continue;
                         }
                         if how == How::CustomErr && code % 7 != 0 {
@@ -606,7 +658,7 @@ pub fn run(args: &Args, rep: &mut Report) {
                         }
                         for local in [false, true] {
                             // binding 127.0.0.1 and dialling the broadcast address gives yet another error: keep the two dead kinds apart
-                            if local && list.contains(&Entry::Unreachable) {
+                            if local && (list.contains(&Entry::Unreachable) || list.contains(&Entry::Live6)) {
                                 continue;
                             }
                             case_no += 1;
@@ -624,10 +676,10 @@ pub fn run(args: &Args, rep: &mut Report) {
                 out.extend(unit_cases(&net, &mut seen).await);
             }
             // ---- TLS connectors over the in-memory duplex
-            let reps = if thorough { 6 } else { 1 };
+            let reps = if thorough { 60 } else { 2 };
             for rep_no in 0..reps {
                 for conn in [Conn::Rustls, Conn::OpenSsl] {
-                    for cert in [ServerCert::Good, ServerCert::Other, ServerCert::SelfSigned, ServerCert::Untrusted] {
+                    for cert in [ServerCert::Good, ServerCert::Other, ServerCert::SelfSigned, ServerCert::Untrusted, ServerCert::IpGood] {
                         for (name, valid) in names() {
                             case_no += 1;
                             if case_no % shard.1 != shard.0 {
@@ -665,9 +717,9 @@ pub fn run(args: &Args, rep: &mut Report) {
     };
     let _ = Rng::new(0);
     rep.exhaustive = true;
-    rep.rule = "TCP part: every address list of length 0..4 over {live loopback listener, closed port (refused), broadcast address (network unreachable, when the sandbox reports it immediately)} x {addresses pre-set on the request (set_addrs / with_addr), custom resolver answering with the list, custom resolver failing, IPv4-literal host} x {no local address, local_addr 127.0.0.1} through the real ConnectorService; \
+    rep.rule = "TCP part: every address list of length 0..4 (0..5 thorough) over {live loopback listener, live IPv6 loopback listener (at most one per list), closed port (refused), broadcast address (network unreachable, when the sandbox reports it immediately)} x {addresses pre-set on the request (set_addrs / with_addr), custom resolver answering with the list, custom resolver failing, IPv4-literal host} x {no local address, local_addr 127.0.0.1} through the real ConnectorService; \
                 oracle: resolver call log (never consulted for pre-resolved requests and IP literals, exactly once with (host, port) otherwise), error variant (NoRecords, Resolver, Unresolved, Io), peer address = first live address in order, accept counters of all live listeners (exactly one attempt on the chosen one, none on later ones), local address honoured, and with both dead kinds present the returned I/O error kind is the last attempt's; plus ResolverService / TcpConnectorService unit cases. \
-                TLS part: rustls-0.23 and OpenSSL connector services over an in-memory duplex against a rustls server presenting {leaf for good.test from the trusted CA, leaf for other.test, self-signed, leaf from an untrusted CA} x requested names {good.test, other.test, GOOD.test, empty, 300 chars, 'a b', embedded NUL, 127.0.0.1, good.test., -x.test}: success iff the chain is trusted and the certificate covers a syntactically valid name (then a random payload is echoed and compared), otherwise an error is returned; a panic out of call/poll is a violation. Enumerated completely (exhaustive over the stated lists); distinct = distinct case label."
+                TLS part: rustls-0.23 and OpenSSL connector services over an in-memory duplex against a rustls server presenting {leaf for good.test from the trusted CA, leaf for other.test, self-signed, leaf from an untrusted CA} and {trusted leaf with DNS name good.test and iPAddress 127.0.0.1} x requested names {good.test, other.test, GOOD.test, empty, 300 chars, 'a b', embedded NUL, 127.0.0.1, good.test., -x.test}: success iff the chain is trusted and the certificate covers a syntactically valid name (then a random payload is echoed and compared), otherwise an error is returned; a panic out of call/poll is a violation. Enumerated completely (exhaustive over the stated lists); distinct = distinct case label."
         .into();
     rep.add("obs_connects_ok", seen.connects_ok);
     rep.add("obs_fallbacks_past_dead_addresses", seen.fallbacks);
@@ -682,6 +734,7 @@ pub fn run(args: &Args, rep: &mut Report) {
     rep.add("obs_ip_literal_cases", seen.ip_literal_cases);
     rep.add("obs_later_live_listener_untouched", seen.later_live_untouched);
     rep.add("obs_carried_addresses_with_ip_literal_host", seen.preset_with_literal_host);
+    rep.add("obs_lists_with_ipv6_loopback_address", seen.ipv6_lists);
     rep.add("obs_tls_handshakes_ok", seen.tls_ok);
     rep.add("obs_tls_rejected", seen.tls_rejected);
     rep.add("obs_tls_invalid_names", seen.tls_invalid_names);
